@@ -32,27 +32,22 @@ def touches (c : Ctx) (tx : Tx) : List Nat :=
      | _ => [])
 
 theorem doVote_sum (c : Ctx) (s s' : St) (v cand : Nat) (ib : Int) (U : List Nat)
-    (h : doVote c s v cand ib = .ok s') : sumBal s' U = sumBal s U ∧ s'.gp = s.gp := by
+    (h : doVote c s v cand ib = .ok s') : sumBal s' U = sumBal s U := by
   unfold doVote at h
   simp only at h
   split at h; · cases h
   split at h; · cases h
   injection h with h; subst h
-  constructor
+  rw [sumBal_modAcct _ _ _ (by intro _; rfl)]
+  split
+  · rfl
   · rw [sumBal_modAcct _ _ _ (by intro _; rfl)]
     split
-    · rfl
     · rw [sumBal_modAcct _ _ _ (by intro _; rfl)]
-      split
-      · rw [sumBal_modAcct _ _ _ (by intro _; rfl)]
-      · rfl
-  · rw [modAcct_gp]
-    split
     · rfl
-    · rw [modAcct_gp]; split <;> rfl
 
 theorem doSetSigners_sum (s s' : St) (fr tg : Nat) (l : List (Nat × Nat)) (U : List Nat)
-    (h : doSetSigners s fr tg l = .ok s') : sumBal s' U = sumBal s U ∧ s'.gp = s.gp := by
+    (h : doSetSigners s fr tg l = .ok s') : sumBal s' U = sumBal s U := by
   unfold doSetSigners at h
   split at h; · cases h
   split at h; · cases h
@@ -60,25 +55,23 @@ theorem doSetSigners_sum (s s' : St) (fr tg : Nat) (l : List (Nat × Nat)) (U : 
   split at h; · cases h
   split at h; · cases h
   injection h with h; subst h
-  exact ⟨sumBal_modAcct _ _ _ (by intro _; rfl) U, rfl⟩
+  exact sumBal_modAcct _ _ _ (by intro _; rfl) U
 
 theorem refund_sum (c : Ctx) (s : St) (cand : Nat) (U : List Nat) (hn : U.Nodup)
-    (hc : cand ∈ U) (hp : c.p.pool ∈ U) : sumBal (refund c s cand) U = sumBal s U ∧ (refund c s cand).gp = s.gp := by
+    (hc : cand ∈ U) (hp : c.p.pool ∈ U) : sumBal (refund c s cand) U = sumBal s U := by
   unfold refund
   split
-  · exact ⟨rfl, rfl⟩
+  · rfl
   · rename_i d _
     simp only
-    constructor
-    · rw [sumBal_modAcct _ _ _ (by intro _; rfl), sumBal_setBal _ cand _ U hn hc, sumBal_setBal s c.p.pool _ U hn hp]
-      by_cases e : cand = c.p.pool
-      · rw [e, setBal_bal, if_pos rfl]; omega
-      · rw [setBal_bal, if_neg e]; omega
-    · rfl
+    rw [sumBal_modAcct _ _ _ (by intro _; rfl), sumBal_setBal _ cand _ U hn hc, sumBal_setBal s c.p.pool _ U hn hp]
+    by_cases e : cand = c.p.pool
+    · rw [e, setBal_bal, if_pos rfl]; omega
+    · rw [setBal_bal, if_neg e]; omega
 
 theorem doRegister_sum (c : Ctx) (s s' : St) (fr : Nat) (amt : Int) (unreg : Bool) (inc : Nat) (U : List Nat)
     (hn : U.Nodup) (hf : fr ∈ U) (hp : c.p.pool ∈ U)
-    (h : doRegister c s fr amt unreg inc = .ok s') : sumBal s' U = sumBal s U ∧ s'.gp = s.gp := by
+    (h : doRegister c s fr amt unreg inc = .ok s') : sumBal s' U = sumBal s U := by
   unfold doRegister at h
   simp only at h
   split at h
@@ -86,55 +79,42 @@ theorem doRegister_sum (c : Ctx) (s s' : St) (fr : Nat) (amt : Int) (unreg : Boo
     split at h; · cases h
     split at h; · cases h
     injection h with h; subst h
-    constructor
-    · rw [sumBal_modAcct _ _ _ (by intro _; rfl), sumBal_transfer _ _ _ _ U hn hf hp, sumBal_modAcct _ _ _ (by intro _; rfl)]
-    · rfl
+    rw [sumBal_modAcct _ _ _ (by intro _; rfl), sumBal_transfer _ _ _ _ U hn hf hp, sumBal_modAcct _ _ _ (by intro _; rfl)]
   · split at h; · cases h
     split at h
     · -- unregister
       split at h
       · injection h with h; subst h
-        exact ⟨sumBal_modAcct _ _ _ (by intro _; rfl) U, rfl⟩
+        exact sumBal_modAcct _ _ _ (by intro _; rfl) U
       · split at h
         · injection h with h; subst h
-          exact ⟨sumBal_modAcct _ _ _ (by intro _; rfl) U, rfl⟩
+          exact sumBal_modAcct _ _ _ (by intro _; rfl) U
         · injection h with h; subst h
-          obtain ⟨r1, r2⟩ := refund_sum c (modAcct s fr (fun a => { a with isCand := 2, votes := 0 })) fr U hn hf hp
-          exact ⟨by rw [r1, sumBal_modAcct _ _ _ (by intro _; rfl)], by rw [r2]; rfl⟩
+          rw [refund_sum c (modAcct s fr (fun a => { a with isCand := 2, votes := 0 })) fr U hn hf hp,
+              sumBal_modAcct _ _ _ (by intro _; rfl)]
     · -- modify
       split at h
       · split at h; · cases h
         split at h; · cases h
         injection h with h; subst h
-        constructor
-        · rw [sumBal_modAcct _ _ _ (by intro _; rfl), sumBal_transfer _ _ _ _ U hn hf hp]
-        · rfl
+        rw [sumBal_modAcct _ _ _ (by intro _; rfl), sumBal_transfer _ _ _ _ U hn hf hp]
       · injection h with h; subst h
-        exact ⟨sumBal_modAcct _ _ _ (by intro _; rfl) U, rfl⟩
+        exact sumBal_modAcct _ _ _ (by intro _; rfl) U
 
-/-- what the body of a non-box tx does to the total and the gas pool -/
+/-- what the body of a non-box tx does to the total -/
 theorem body_sum (c : Ctx) (s s' : St) (tx : Tx) (ib : Int) (U : List Nat) (hn : U.Nodup)
-    (hU : ∀ a ∈ touches c tx, a ∈ U)
-    (h : (match tx.kind with
-          | .transfer to v =>
-            if (s.accts tx.sender).bal < v then Except.error Err.insufficientBalance
-            else if v = 0 then .ok s else .ok (transfer s tx.sender to v)
-          | .vote cand => doVote c s tx.sender cand ib
-          | .register amt unreg inc => doRegister c s tx.sender amt unreg inc
-          | .setSigners tg l => doSetSigners s tx.sender tg l
-          | .box => .error .boxInBox
-          | .other => .error .txType) = .ok s') :
-    sumBal s' U = sumBal s U ∧ s'.gp = s.gp := by
+    (hU : ∀ a ∈ touches c tx, a ∈ U) (h : body c s tx ib = .ok s') : sumBal s' U = sumBal s U := by
   have hs : tx.sender ∈ U := hU _ (by simp [touches])
   have hp : c.p.pool ∈ U := hU _ (by simp [touches])
+  unfold body at h
   cases hk : tx.kind with
   | transfer to v =>
     simp only [hk] at h
     have ht : to ∈ U := hU _ (by simp [touches, hk])
     split at h; · cases h
     split at h
-    · injection h with h; subst h; exact ⟨rfl, rfl⟩
-    · injection h with h; subst h; exact ⟨sumBal_transfer _ _ _ _ U hn hs ht, rfl⟩
+    · injection h with h; subst h; rfl
+    · injection h with h; subst h; exact sumBal_transfer _ _ _ _ U hn hs ht
   | vote cand => simp only [hk] at h; exact doVote_sum c s s' _ _ _ U h
   | register amt unreg inc => simp only [hk] at h; exact doRegister_sum c s s' _ _ _ _ U hn hs hp h
   | setSigners tg l => simp only [hk] at h; exact doSetSigners_sum s s' _ _ _ U h
@@ -145,17 +125,18 @@ theorem body_sum (c : Ctx) (s s' : St) (tx : Tx) (ib : Int) (U : List Nat) (hn :
     * reports gasUsed = its intrinsic gas, which is ≤ gasLimit,
     * moves the total of all balances by exactly −gasUsed × gasPrice (the payer's net debit; everything
       else — value, deposit, refund — is a transfer between accounts),
-    * gives the unused gas back to the pool. -/
-theorem applySimple_supply (c : Ctx) (s s' : St) (tx : Tx) (g : Nat) (U : List Nat) (hn : U.Nodup)
-    (hU : ∀ a ∈ touches c tx, a ∈ U) (h : applySimple c s tx = .ok (s', g)) :
+    * takes exactly gasUsed out of the block's gas pool. -/
+theorem applySimple_supply (c : Ctx) (s s' : St) (gp gp' : Nat) (tx : Tx) (g : Nat) (U : List Nat) (hn : U.Nodup)
+    (hU : ∀ a ∈ touches c tx, a ∈ U) (h : applySimple c s gp tx = .ok (s', gp', g)) :
     sumBal s' U = sumBal s U - (g : Int) * tx.gasPrice ∧ g ≤ tx.gasLimit ∧ intrinsic tx = some g ∧
-    s'.gp + g = s.gp := by
+    gp' + g = gp := by
   have hpy : tx.payer ∈ U := hU _ (by simp [touches])
   unfold applySimple at h
   simp only at h
   split at h; · cases h
   split at h; · cases h
   split at h; · cases h
+  rename_i hgp
   split at h; · cases h
   rename_i ig hig
   split at h; · cases h
@@ -164,18 +145,11 @@ theorem applySimple_supply (c : Ctx) (s s' : St) (tx : Tx) (g : Nat) (U : List N
   rename_i sb hb
   injection h with h
   injection h with h1 h2
-  subst h1 h2
-  have hgp : ¬ s.gp < tx.gasLimit := by assumption
-  obtain ⟨b1, b2⟩ := body_sum c _ sb tx _ U hn hU hb
-  refine ⟨?_, by omega, ?_, ?_⟩
-  · rw [sumBal_setBal _ tx.payer _ U hn hpy]
-    have e1 : sumBal { sb with gp := sb.gp + (tx.gasLimit - ig) } U = sumBal sb U := sumBal_congr _ _ (fun _ => rfl) U
-    rw [e1, b1, sumBal_setBal _ tx.payer _ U hn hpy]
-    have e2 : sumBal { s with gp := s.gp - tx.gasLimit } U = sumBal s U := sumBal_congr _ _ (fun _ => rfl) U
-    rw [e2]
-    have e3 : (({ sb with gp := sb.gp + (tx.gasLimit - ig) } : St).accts tx.payer).bal = (sb.accts tx.payer).bal := rfl
-    have e4 : (({ s with gp := s.gp - tx.gasLimit } : St).accts tx.payer).bal = (s.accts tx.payer).bal := rfl
-    rw [e3, e4]
+  injection h2 with h2 h3
+  subst h1 h2 h3
+  have b1 := body_sum c _ sb tx _ U hn hU hb
+  refine ⟨?_, by omega, ?_, by omega⟩
+  · rw [sumBal_setBal _ tx.payer _ U hn hpy, b1, sumBal_setBal _ tx.payer _ U hn hpy]
     have hsub : tx.gasLimit - (tx.gasLimit - ig) = ig := by omega
     rw [hsub]
     have hcast : ((tx.gasLimit - ig : Nat) : Int) = (tx.gasLimit : Int) - (ig : Int) := by omega
@@ -184,57 +158,44 @@ theorem applySimple_supply (c : Ctx) (s s' : St) (tx : Tx) (g : Nat) (U : List N
       rw [Int.sub_mul]
     omega
   · rw [hig]; congr 1; omega
-  · simp only [setBal_gp]
-    rw [b2]
-    simp only [setBal_gp]
-    omega
 
 /-! ### whole blocks -/
 
 def BoxFree (txs : List Tx) : Prop := ∀ t ∈ txs, t.kind ≠ .box
 
-theorem applyTx_nonbox (c : Ctx) (s : St) (t : Tx) (h : t.kind ≠ .box) : applyTx c s t = applySimple c s t := by
+theorem applyTx_nonbox (c : Ctx) (s : St) (gp : Nat) (t : Tx) (h : t.kind ≠ .box) : applyTx c s gp t = applySimple c s gp t := by
   unfold applyTx
   split
   · rename_i hk; exact absurd hk h
   · rfl
 
-/-- **mine_supply_partial**: over a box-free candidate list (any mix of valid and failing txs) the miner
-    path moves the total by exactly minus the fees it reports, and reports Σ gasUsed. -/
-theorem mine_supply_partial (c : Ctx) (U : List Nat) (hn : U.Nodup) : ∀ (txs : List Tx) (s : St),
+/-- **mine_supply_partial**: over a box-free candidate list (any mix of valid and failing txs, any gas pool)
+    the miner path moves the total by exactly minus the fees it reports. -/
+theorem mine_supply_partial (c : Ctx) (U : List Nat) (hn : U.Nodup) : ∀ (txs : List Tx) (s : St) (gp : Nat),
     BoxFree txs → (∀ t ∈ txs, ∀ a ∈ touches c t, a ∈ U) →
-    sumBal (mine c s txs).1 U = sumBal s U - (mine c s txs).2.2.2.2 := by
+    sumBal (mine c s gp txs).st U = sumBal s U - (mine c s gp txs).fee := by
   intro txs
   induction txs with
-  | nil => intro s _ _; simp [mine]
+  | nil => intro s gp _ _; simp [mine]
   | cons t ts ih =>
-    intro s hb hU
+    intro s gp hb hU
     have hb' : BoxFree ts := fun x hx => hb x (List.mem_cons_of_mem _ hx)
     have hU' : ∀ x ∈ ts, ∀ a ∈ touches c x, a ∈ U := fun x hx => hU x (List.mem_cons_of_mem _ hx)
     unfold mine
-    by_cases hg : s.gp < LemoGen.Gas.OrdinaryTxGas
+    by_cases hg : gp < LemoGen.Gas.OrdinaryTxGas
     · simp [hg]
     · simp only [hg, if_false]
-      rw [applyTx_nonbox c s t (hb t List.mem_cons_self)]
-      cases ha : applySimple c s t with
+      rw [applyTx_nonbox c s gp t (hb t List.mem_cons_self)]
+      cases ha : applySimple c s gp t with
       | error e =>
-        have hi := ih s hb' hU'
-        rcases hm : mine c s ts with ⟨s', sel, inv, g, f⟩
-        rw [hm] at hi
-        try rw [hm]
-        simp only [] at hi ⊢
-        exact hi
-      | ok r =>
-        obtain ⟨s1, g1⟩ := r
-        obtain ⟨h1, _, _, _⟩ := applySimple_supply c s s1 t g1 U hn (hU t List.mem_cons_self) ha
-        have hi := ih s1 hb' hU'
-        rcases hm : mine c s1 ts with ⟨s', sel, inv, g, f⟩
-        rw [hm] at hi
-        try rw [hm]
-        simp only [] at hi ⊢
-        try rw [hm]
+        obtain ⟨e, gp'⟩ := e
         simp only []
-        rw [hi, h1]
+        exact ih s gp' hb' hU'
+      | ok r =>
+        obtain ⟨s1, gp1, g1⟩ := r
+        obtain ⟨h1, _, _, _⟩ := applySimple_supply c s s1 gp gp1 t g1 U hn (hU t List.mem_cons_self) ha
+        simp only []
+        rw [ih s1 gp1 hb' hU', h1]
         omega
 
 theorem votesByBalance_bal (c : Ctx) (start : Nat → Int) : ∀ (l : List Nat) (s : St) (x : Nat),
@@ -265,15 +226,13 @@ theorem chargeForGas_sum (s : St) (miner : Nat) (f : Int) (U : List Nat) (hn : U
 
 /-- the income address of the miner's profile is not changed by mining when nobody re-registers the miner:
     we take it as the hypothesis `hinc'` on the post-mining state (the harness's miners never re-register). -/
-theorem mineBlock_conserves_partial (c : Ctx) (s : St) (txs : List Tx) (addrs U : List Nat) (hn : U.Nodup)
+theorem mineBlock_conserves_partial (c : Ctx) (s : St) (gp : Nat) (txs : List Tx) (addrs U : List Nat) (hn : U.Nodup)
     (hb : BoxFree txs) (hU : ∀ t ∈ txs, ∀ a ∈ touches c t, a ∈ U)
-    (hinc : ((mine c s txs).1.accts c.miner).income ≠ 0) (hincU : ((mine c s txs).1.accts c.miner).income ∈ U) :
-    sumBal (mineBlock c s txs addrs).1 U = sumBal s U := by
-  have hm := mine_supply_partial c U hn txs s hb hU
+    (hinc : ((mine c s gp txs).st.accts c.miner).income ≠ 0) (hincU : ((mine c s gp txs).st.accts c.miner).income ∈ U) :
+    sumBal (mineBlock c s gp txs addrs).1 U = sumBal s U := by
+  have hm := mine_supply_partial c U hn txs s gp hb hU
   unfold mineBlock
-  rcases hq : mine c s txs with ⟨s1, sel, inv, g, f⟩
-  rw [hq] at hm hinc hincU
-  simp only [] at hm hinc hincU ⊢
+  simp only
   rw [sumBal_congr _ _ (votesByBalance_bal c _ addrs _) U, chargeForGas_sum _ _ _ U hn hinc hincU, hm]
   omega
 
@@ -283,8 +242,7 @@ theorem mineBlock_conserves_partial (c : Ctx) (s : St) (txs : List Tx) (addrs U 
 def w0 (minerIncome : Nat) : St :=
   { accts := fun a =>
       if a = 10 then { bal := 1000000 } else if a = 11 then { bal := 1000000 }
-      else if a = 3 then { income := minerIncome } else {},
-    gp := 100000000 }
+      else if a = 3 then { income := minerIncome } else {} }
 
 def wSub : Tx :=
   { id := 2, sender := 11, payer := 11, gasLimit := 30000, gasPrice := 1, txType := 0, msgLen := 0, nzData := 0,
@@ -300,14 +258,14 @@ def wU : List Nat := [1, 3, 4, 10, 11, 12]
 /-- **box_mints**: one box with one 21000-gas transfer inside: the payers pay 40000 + 21000, the miner's income
     address receives 21000 + 61000 — 21000 mo are created; and the box reports gasUsed 61000 > gasLimit 50000. -/
 theorem box_mints :
-    sumBal (mineBlock wCtx (w0 4) [wBox] wU).1 wU = sumBal (w0 4) wU + 21000 ∧
-    (mineBlock wCtx (w0 4) [wBox] wU).2.1 = [(1, 61000)] ∧ wBox.gasLimit = 50000 := by
+    sumBal (mineBlock wCtx (w0 4) 100000000 [wBox] wU).1 wU = sumBal (w0 4) wU + 21000 ∧
+    (mineBlock wCtx (w0 4) 100000000 [wBox] wU).2.1 = [(1, 61000)] ∧ wBox.gasLimit = 50000 := by
   decide
 
 /-- **fee_vanishes_without_income**: the same block without a box, mined by an account whose profile has no
     income address: the 21000 mo fee is destroyed. -/
 theorem fee_vanishes_without_income :
-    sumBal (mineBlock wCtx (w0 0) [wSub] wU).1 wU = sumBal (w0 0) wU - 21000 := by
+    sumBal (mineBlock wCtx (w0 0) 100000000 [wSub] wU).1 wU = sumBal (w0 0) wU - 21000 := by
   decide
 
 /-! non-vacuity of the partial theorem's hypotheses -/
@@ -315,6 +273,6 @@ example : BoxFree [wSub] ∧ (∀ t ∈ [wSub], ∀ a ∈ touches wCtx t, a ∈ 
   refine ⟨?_, ?_, by decide⟩
   · intro t ht; simp at ht; subst ht; simp [wSub]
   · intro t ht a ha; simp at ht; subst ht; simp [touches, wSub, wCtx] at ha; rcases ha with rfl | rfl | rfl | rfl <;> decide
-example : sumBal (mineBlock wCtx (w0 4) [wSub] wU).1 wU = sumBal (w0 4) wU := by decide
+example : sumBal (mineBlock wCtx (w0 4) 100000000 [wSub] wU).1 wU = sumBal (w0 4) wU := by decide
 
 end LemoProofs.C05
